@@ -1,4 +1,5 @@
 """C04 — lexical scoping; closures capture their defining scope by reference."""
+import anchors
 import mir
 import ops
 import prov
@@ -236,7 +237,7 @@ def rule_R04_4(ctx):
         ok = False
         if cp and cp[0][0] == "call":
             cc = g.call_at(cp[0][1])
-            if cc is not None and (cc.res or "").endswith("ScopeStack::new_from_push") \
+            if cc is not None and cc.res in {p.path for p in anchors.scope_pushers(prog)} \
                     and g.dominates(cc.bb, c.bb):
                 # pushed scope is a fresh empty map
                 a1 = g.canon_op(cc.args[1]) if len(cc.args) > 1 else ()
@@ -257,10 +258,12 @@ def rule_R04_4(ctx):
                    "extended by a fresh scope (new_from_push with an empty "
                    "map)" % g.path, where=c.loc)
     # new_from_push pushes exactly one new cell onto a clone
-    nfp = prog.fns.get("eval::scope::ScopeStack::new_from_push")
-    if nfp is None:
-        r.anchor_missing("ScopeStack::new_from_push")
+    pushers = anchors.scope_pushers(prog)
+    if len(pushers) != 1:
+        r.anchor_missing("the scope module's pushing constructor (today ScopeStack::new_from_push); found %s"
+                         % [p.path for p in pushers])
     else:
+        nfp = pushers[0]
         pushes = [c for c in nfp.calls() if (c.res or "").endswith("::push")]
         arcs = [c for c in nfp.calls() if (c.declared or "") == "std::sync::Arc::<T>::new"]
         clones = [c for c in nfp.calls() if (c.declared or "") == "std::clone::Clone::clone"]
@@ -288,8 +291,8 @@ def rule_R04_4(ctx):
             if (c.dstty or "") == SCOPESTACK:
                 prods.add((c.res or ""))
     r.inst("producers of scope chains outside the scope module: %s" % sorted(prods))
-    allowed = {"eval::scope::ScopeStack::new_from_push", "eval::scope::ScopeStack::new",
-               "<eval::scope::ScopeStack as std::clone::Clone>::clone"}
+    allowed = {p.path for p in anchors.scope_pushers(prog)} | {p.path for p in anchors.scope_root_ctors(prog)} \
+        | {"<eval::scope::ScopeStack as std::clone::Clone>::clone"}
     extra = set()
     for pth in prods - allowed:
         gfn = prog.fns.get(pth)
@@ -305,8 +308,11 @@ def rule_R04_4(ctx):
     else:
         r.fail("scope-chain producers=%s" % ",".join(sorted(extra)),
                "scope chains are produced by %s" % sorted(extra))
-    roots = [c for c in prog.callers_of("eval::scope::ScopeStack::new") if not c.fn.module.startswith(__import__("anchors").scope_module(prog))]
-    r.inst("ScopeStack::new (empty root) called from %s" % sorted(c.fn.path for c in roots))
+    roots = []
+    for rc in anchors.scope_root_ctors(prog):
+        roots += [c for c in prog.callers_of(rc.path) if not c.fn.module.startswith(anchors.scope_module(prog))]
+    r.inst("empty-root constructors %s called from %s" % ([p.path for p in anchors.scope_root_ctors(prog)],
+                                                          sorted(c.fn.path for c in roots)))
     if all(c.fn.module == "" for c in roots):
         r.ok()
     else:
@@ -315,8 +321,47 @@ def rule_R04_4(ctx):
     return r
 
 
+def rule_R04_5(ctx, rule_id="R04.5"):
+    prog = ctx.prog
+    r = RuleResult(rule_id, "name lookup and assignment search the chain from "
+                   "the innermost scope outwards",
+                   "searching outermost-first resolves a shadowed name to the "
+                   "outer binding: an inner declaration would not shadow")
+    pushers = anchors.scope_pushers(prog)
+    appends = any((c.res or "").endswith("Vec::<T, A>::push") or (c.res or "").endswith("::push")
+                  for p in pushers for c in p.calls())
+    if not pushers or not appends:
+        r.unproven.append("the pushing constructor does not append to a Vec: "
+                          "iteration direction not decidable by this rule")
+        return r
+    sm = anchors.scope_module(prog)
+    n = 0
+    for f in prog.hand_fns():
+        if f.from_expansion or not f.module.startswith(sm):
+            continue
+        for c in f.calls():
+            if c.is_ptr or not (c.declared or "").endswith("Iterator::next") or not f.in_any_loop(c.bb):
+                continue
+            a0 = c.argtys[0] if c.argtys else ""
+            if "std::sync::Arc<std::sync::Mutex<" not in a0:
+                continue      # not an iteration over the chain's cells
+            n += 1
+            rev = "std::iter::Rev<" in a0
+            r.inst("%s iterates the chain %s" % (f.path, "innermost-first (reversed)" if rev else "outermost-first"))
+            if rev:
+                r.ok()
+            else:
+                r.fail("%s | chain searched outermost-first" % f.path,
+                       "%s walks the scope chain from the outermost scope "
+                       "(the pushing constructor appends, so the innermost "
+                       "scope is last): a shadowing declaration is not found "
+                       "first" % f.path, where=c.loc)
+    r.require_floor("searches over the scope chain", n, 1)
+    return r
+
+
 def run(ctx):
-    return [rule_R04_1(ctx), rule_R04_2(ctx), rule_R04_3(ctx), rule_R04_4(ctx)]
+    return [rule_R04_1(ctx), rule_R04_2(ctx), rule_R04_3(ctx), rule_R04_4(ctx), rule_R04_5(ctx)]
 
 
 META = {
